@@ -58,7 +58,7 @@ def gen_item(seed, tier):
     r = rng.random()
     if r < 0.5:
         val = rng.choice([1, 'v', None, {'t': 'list', 'v': [1, 2]}, {'t': 'dict', 'v': [['k', 1]]},
-                          {'t': 'obj', 'v': [['z', 1]]}])
+                          {'t': 'obj', 'v': [['z', 1]]}, 0, '', False, {'t': 'list', 'v': []}, {'t': 'dict', 'v': []}])
     elif r < 0.62:
         val = {'t': 'spec', 'v': ['T', 'T', []]}                 # self-referential
     elif r < 0.78:
